@@ -17,6 +17,8 @@ SPACES = {
     "k4only": dict(nts=("S", "A"), ts=("a", "b"), r=2, k=4, kmin=4),
 }
 WS_FILL = ("", " ", "  ", "\n")
+# runs of layout far longer than any token (fixed-size windows, recursion)
+LONG_FILL = ("", " ", " " * 33, "\n" * 70, " \n" * 150)
 CM_FILL = WS_FILL + ("/*a*/", "//b\n", " /* /*a*/ */ ")
 LAYOUT_CM = (
     "LAYOUT: LayoutItem | LAYOUT LayoutItem | EMPTY;\n"
@@ -50,6 +52,8 @@ def plan(tier, seed):
                  ntok_light=2, win=(seed, 8)),
             dict(fam="relayout", space="k2", mode="comments-prio", ntok=2,
                  ntok_light=0),
+            dict(fam="relayout", space="k2", mode="ws-long", ntok=2,
+                 ntok_light=0),
             dict(fam="equiv", space="k3", nmax=4, win=(seed, 3)),
             dict(fam="equiv", space="k3", nmax=3, win=(seed, 24), wsset=1),
             dict(fam="equiv", space="k3", nmax=3, win=(seed, 24), wsset=2),
@@ -62,6 +66,8 @@ def plan(tier, seed):
         dict(fam="relayout", space="k3", mode="comments", ntok=2, ntok_light=3),
         dict(fam="relayout", space="k3", mode="comments-prio", ntok=2,
              ntok_light=0, win=(0, 4)),
+        dict(fam="relayout", space="k3", mode="ws-long", ntok=2, ntok_light=0,
+             win=(0, 4)),
         dict(fam="equiv", space="k3", nmax=4),
         dict(fam="equiv", space="k4only", nmax=4, win=(0, 4)),
         dict(fam="equiv", space="k3", nmax=4, wsset=1),
@@ -138,7 +144,8 @@ def relayout_unit(u):
     mon = Monitor()
     judge = Judge(PROP, KNOWN)
     st = collections.Counter()
-    fills = WS_FILL if u["mode"] == "ws" else CM_FILL
+    fills = WS_FILL if u["mode"] == "ws" else \
+        LONG_FILL if u["mode"] == "ws-long" else CM_FILL
     samples = []
     toks_all = []
     for n in range(0, max(u["ntok"], u["ntok_light"]) + 1):
